@@ -116,30 +116,39 @@ inductive Out
   | control               -- `SvDrop` / `SvRegister` carrying FlagFrag (sets the last-dropped group)
   deriving Repr, DecidableEq
 
+/-- what the `FlagFrag` arm of `receive` does with the reassembly state of the fragment's own
+group (`none` = no cluster for that group) -/
+def recvGroup (c : Option Cluster) (n : Pkt) : Option Cluster × Out :=
+  match c with
+  | none =>
+    if Flag.position n.flags > 0 then (none, .dropReply)
+    else
+      match Cluster.new.add n with
+      | none => (some Cluster.new, .errMismatch)
+      | some c =>
+        match c.done with
+        | some v => (none, .deliver v)
+        | none => (some c, .stored)
+  | some c0 =>
+    match c0.add n with
+    | none => (some c0, .errMismatch)
+    | some c =>
+      match c.done with
+      | some v => (none, .deliver v)
+      | none => (some c, .stored)
+
+def Frags.put (fs : Frags) (g : Nat) : Option Cluster → Frags
+  | none => fs.erase g
+  | some c => fs.set g c
+
 /-- the `FlagFrag` arm of `receive` -/
 def recvFrag (fs : Frags) (n : Pkt) : Frags × Out :=
   if n.id.toNat = Facts.svDrop ∨ n.id.toNat = Facts.svRegister then (fs, .control)
   else if Flag.len n.flags = 0 then (fs, .errCount)
   else if Flag.len n.flags = 1 then (fs, .deliver { n with flags := Flag.clear n.flags })
   else
-    let g := Flag.group n.flags
-    match fs.find g with
-    | none =>
-      if Flag.position n.flags > 0 then (fs, .dropReply)
-      else
-        match Cluster.new.add n with
-        | none => (fs.set g Cluster.new, .errMismatch)
-        | some c =>
-          match c.done with
-          | some v => (fs.erase g, .deliver v)
-          | none => (fs.set g c, .stored)
-    | some c0 =>
-      match c0.add n with
-      | none => (fs, .errMismatch)
-      | some c =>
-        match c.done with
-        | some v => (fs.erase g, .deliver v)
-        | none => (fs.set g c, .stored)
+    let r := recvGroup (fs.find (Flag.group n.flags)) n
+    (fs.put (Flag.group n.flags) r.1, r.2)
 
 def recvAll (fs : Frags) : List Pkt → Frags × List Out
   | [] => (fs, [])
